@@ -273,6 +273,7 @@ fn acc_for_type(t: Type) -> Option<&'static str> {
 
 pub fn d_handler(a: &[&str]) -> String {
     let acc = a[0];
+    if acc == "skip" && a.len() >= 2 { return crate::ops_skip::d_skip(a, true) }
     let inp = unhex(a[1]);
     let pos: usize = a.get(2).map(|p| p.parse().unwrap()).unwrap_or(0);
     let r = run_acc(acc, &inp, pos);
